@@ -1,6 +1,7 @@
 #!/usr/bin/env python3
 """Developer tool: re-run tools/run_seeded.py for every kept seeded change (own property's check, quick tier) against
-/repo's current HEAD and update caught_by / not_caught_by in its meta.json.   reeval_seeded.py [parallel=4] [ids...]"""
+/repo's current HEAD and update caught_by / not_caught_by in its meta.json.   reeval_seeded.py [parallel=4] [ids...]
+With REEVAL_KEEP_META=1 the metas are left alone (runs at another VERIF_SEED, to find catches that depend on the seed)."""
 import concurrent.futures, glob, json, os, subprocess, sys
 HERE = os.path.dirname(os.path.dirname(os.path.abspath(__file__)))
 parallel = int(sys.argv[1]) if len(sys.argv) > 1 else 4
@@ -26,7 +27,8 @@ def one(directory):
             meta['not_caught_by'].append(prop)
     meta['last_evaluated_at_repo_commit'] = subprocess.run(['git', '-C', '/repo', 'rev-parse', '--short', 'HEAD'], stdout=subprocess.PIPE).stdout.decode().strip()
     meta['verified']['valid'] = bool(ok)
-    json.dump(meta, open(meta_path, 'w'), indent=1, sort_keys=True)
+    if not os.environ.get('REEVAL_KEEP_META'):
+        json.dump(meta, open(meta_path, 'w'), indent=1, sort_keys=True)
     return os.path.basename(directory), bool(ok), res.get('exit'), res.get('new_keys', [])[:2], res.get('wall_s')
 
 
